@@ -23,6 +23,22 @@ PROPS = {
                      "predicate truth for delete-where comes from the repository's expression evaluator on in-memory values (no lake, no pruner)",
                      "the exhaustive-short-histories half of the quantifier is enumeration, not simulation, and is not claimed"],
     ),
+    "C12": dict(
+        engine="lakesim", level="exploration",
+        budget_s=dict(quick=90, thorough=1800),
+        rule=("one run = a seeded sequential setup (0..14 commits on main, maybe a child branch; crosses the journal's >10-entries snapshot rule in a fifth of the runs), then 2..4 clients "
+              "(separate lake handles and caches on one storage; object-store stub or the real file engine) each issuing 1..3 operations out of load / delete / delete-where / compact / "
+              "vector add / query / merge / revert / create,rename,drop pool / create,drop branch / list pools, interleaved at every metadata storage operation by the seeded scheduler "
+              "(policies: bounded preemption budget <= 6, uniform, stall-one-client, changing priorities), then one sequential load per client. Oracle: porcupine linearizability of the "
+              "recorded history (stamps = scheduler step numbers) against a sequential lake model whose commit effects are read post hoc from the immutable commit objects; "
+              "cold read-only replay of every branch after every completed operation (only at instants with no metadata put open); chain/name invariants at the end. "
+              "Non-trivial = at least one preemption happened; distinct = distinct hash of all draws (workload and schedule)."),
+        real=REAL_LAKE, stub=STUB_LAKE,
+        assumptions=["an operation may fail with an error at any time while other clients are active, provided it then leaves no trace; progress is only demanded in the sequential final phase",
+                     "object stores are modelled WITH conditional put; the shipped S3 engine lacks it and the repository's fallback is documented as racy (#2686): out of scope",
+                     "interleavings are explored at storage-operation granularity (and the file engine's put-if-absent hook), not between arbitrary statements",
+                     "porcupine results of Unknown (20 s timeout) are counted, never reported as violation or success"],
+    ),
     "C13": dict(
         engine="lakesim", level="exploration",
         budget_s=dict(quick=60, thorough=1500),
